@@ -980,7 +980,7 @@ func scopesOf(f *ssa.Function) []Scope {
 	out := []Scope{{Fn: f, S: Subst{}}}
 	var rec func(sc Scope, d int)
 	rec = func(sc Scope, d int) {
-		if d >= 2 {
+		if d >= 3 {
 			return
 		}
 		for _, b := range sc.Fn.Blocks {
@@ -990,11 +990,50 @@ func scopesOf(f *ssa.Function) []Scope {
 					continue
 				}
 				h := call.Call.StaticCallee()
-				if h == nil || h == f || h == sc.Fn || !IsRepoFunc(h) || h.Blocks == nil {
+				var mc *ssa.MakeClosure
+				if h == nil {
+					// a function literal handed down as an argument and invoked here ("eachNum(nums, func(n) {...})",
+					// "withLock(inum, func() {...})"): the parameter stands for the literal the owner passed
+					if pm, isP := call.Call.Value.(*ssa.Parameter); isP {
+						switch lit := sc.S.resolve(pm).(type) {
+						case *ssa.MakeClosure:
+							if lf, ok := lit.Fn.(*ssa.Function); ok {
+								h, mc = lf, lit
+							}
+						case *ssa.Function:
+							if lit.Parent() != nil {
+								h = lit
+							}
+						}
+					}
+					if h == nil || h == f || h == sc.Fn || h.Blocks == nil {
+						continue
+					}
+					s := Subst{}
+					for k, v := range sc.S {
+						s[k] = v
+					}
+					for i, p := range h.Params {
+						if i < len(call.Call.Args) {
+							s[p] = sc.S.resolve(call.Call.Args[i])
+						}
+					}
+					if mc != nil {
+						for i, fv := range h.FreeVars {
+							if i < len(mc.Bindings) {
+								s[fv] = sc.S.resolve(mc.Bindings[i])
+							}
+						}
+					}
+					n := Scope{Fn: h, S: s, Via: call}
+					out = append(out, n)
+					rec(n, d+1)
+					continue
+				}
+				if h == f || h == sc.Fn || !IsRepoFunc(h) || h.Blocks == nil {
 					continue
 				}
 				// an unexported function, or a closure made in this scope (a local helper for a repeated block)
-				var mc *ssa.MakeClosure
 				if h.Parent() != nil {
 					if h.Parent() != sc.Fn {
 						continue
